@@ -56,6 +56,24 @@ STREAM(mem_pairs) {
         delete_module_info(mod);
         // NTT120: with AVX2 masked off the module installs no kernels, but creation and destruction must still pair up
         { MODULE* mq = new_module_info(nn, NTT120); delete_module_info(mq); }
+        if (nn <= 256) {
+          // two modules of the same kind and dimension alive at once, the OLDER one deleted first, then the survivor is
+          // used and deleted (tables shared between modules would be used after free / freed twice)
+          for (int type = 0; type < 2; type++) {
+            if (type == 1 && mask != 0) continue;   // NTT120 has kernels only with AVX2
+            MODULE* m1 = new_module_info(nn, type ? NTT120 : FFT64);
+            MODULE* m2 = new_module_info(nn, type ? NTT120 : FFT64);
+            delete_module_info(m1);
+            MODULE* m3 = new_module_info(nn, type ? NTT120 : FFT64);
+            std::vector<int64_t> a(nn, 3), big(4 * nn);
+            std::vector<uint64_t> d(4 * nn + nn);
+            std::vector<uint8_t> tmp(vec_znx_idft_tmp_bytes(m2) + 64);
+            vec_znx_dft(m2, (VEC_ZNX_DFT*)d.data(), 1, a.data(), 1, nn);
+            vec_znx_idft(m2, (VEC_ZNX_BIG*)big.data(), 1, (VEC_ZNX_DFT*)d.data(), 1, tmp.data());
+            delete_module_info(m3);
+            delete_module_info(m2);
+          }
+        }
       }
       nopcase(out, "pairs_dim");
     }
